@@ -37,7 +37,12 @@ pub fn verif_seed() -> u64 {
         .map(|v| v as u64)
         .unwrap_or(DEFAULT_SEED)
 }
+pub static JOBS_OVERRIDE: std::sync::atomic::AtomicUsize = std::sync::atomic::AtomicUsize::new(0);
 pub fn jobs() -> usize {
+    let o = JOBS_OVERRIDE.load(Ordering::Relaxed);
+    if o > 0 {
+        return o;
+    }
     std::env::var("VERIF_JOBS")
         .ok()
         .and_then(|s| s.parse().ok())
@@ -137,6 +142,8 @@ pub struct BatchResult {
     pub capped: bool,
     pub harness_error: Option<String>,
     pub log_digest: u64,
+    /// run index -> digest of its event log (+ file digests)
+    pub run_logs: BTreeMap<u64, u64>,
     /// merged accounting of all workers (raw form, see acct_raw_json)
     pub acct: Value,
     pub extra: Value,
@@ -165,7 +172,13 @@ pub fn worker_main<W: Workload>(w: &W, tier: Tier, base_seed: u64, start: u64, s
                 code = 2;
                 break;
             }
-            Ok(o) => {
+            Ok(mut o) => {
+                // digest of every file the run left on the simulated disk
+                for name in ctx.dir.listing() {
+                    if let Some(d) = ctx.dir.digest(&name) {
+                        o.log.push(format!("file {name} {d:016x}"));
+                    }
+                }
                 let line = json!({
                     "i": i,
                     "seed": seed,
@@ -316,6 +329,7 @@ pub fn run_batch<W: Workload>(w: &W, tier: Tier, base_seed: u64, plan: &BatchPla
         capped,
         harness_error: herr,
         log_digest,
+        run_logs: logs,
         acct: merge_values(&accts),
         extra: merge_values(&extras),
     }
@@ -434,6 +448,34 @@ pub fn verif_root() -> std::path::PathBuf {
         .unwrap_or_else(|_| std::path::PathBuf::from("/verif"))
 }
 
+// ------------------------------------------------------------------ determinism self-test
+/// Execute the first `runs` runs of the batch three times, each time in fresh worker processes,
+/// at 1, 16 and 5 workers, and compare every run's event log digest (argv, exit status,
+/// scheduler decision hash, step count, stdout digest of every simulated process, digest of
+/// every file left on the simulated disk, verdict).
+pub fn determinism_selftest<W: Workload>(w: &W, tier: Tier, seed: u64, runs: u64) -> Result<Value, String> {
+    let plan = BatchPlan { runs, wall_cap_s: 1200 };
+    let mut results = vec![];
+    let workers = [1usize, 16, 5];
+    for j in workers {
+        JOBS_OVERRIDE.store(j, Ordering::Relaxed);
+        let r = run_batch(w, tier, seed, &plan);
+        JOBS_OVERRIDE.store(0, Ordering::Relaxed);
+        if let Some(e) = r.harness_error {
+            return Err(format!("harness error during determinism self-test: {e}"));
+        }
+        results.push((r.run_logs, r.acct["traces"].as_array().map(|a| a.len()).unwrap_or(0), r.found.iter().map(|f| (f.index, f.signature.clone())).collect::<Vec<_>>()));
+    }
+    for k in 1..results.len() {
+        if results[k].0 != results[0].0 || results[k].2 != results[0].2 {
+            let bad: Vec<u64> = results[0].0.iter().filter(|(i, d)| results[k].0.get(*i) != Some(*d)).map(|(i, _)| *i).take(5).collect();
+            return Err(format!("NONDETERMINISM: event logs of runs {bad:?} (seeds {:?}) differ between {} and {} workers", bad.iter().map(|i| mix(seed, *i)).collect::<Vec<_>>(), workers[0], workers[k]));
+        }
+    }
+    Ok(json!({"runs": runs, "executions_of_each_run": workers.len(), "worker_counts": workers, "event_logs_identical": true,
+        "compared": "per run: argv, exit status, scheduler-decision hash, step count and stdout digest of every simulated process; digest of every file left on the simulated disk; verdict"}))
+}
+
 // ------------------------------------------------------------------ check driver
 pub fn write_replay<W: Workload>(
     w: &W,
@@ -514,6 +556,15 @@ pub fn check<W: Workload>(w: &W, tier: Tier, plan: BatchPlan) -> i32 {
         plan.runs,
         jobs()
     );
+    let det_runs = std::env::var("VERIF_DET_RUNS").ok().and_then(|s| s.parse().ok()).unwrap_or(if tier == Tier::Quick { 16 } else { 160 }).min(plan.runs);
+    let det = match determinism_selftest(w, tier, seed, det_runs) {
+        Ok(v) => v,
+        Err(e) => {
+            eprintln!("HARNESS-ERROR {e}");
+            crate::procsim::cleanup_scratch();
+            return 2;
+        }
+    };
     let r = run_batch(w, tier, seed, &plan);
     if let Some(e) = &r.harness_error {
         eprintln!("HARNESS-ERROR {e}");
@@ -594,6 +645,7 @@ pub fn check<W: Workload>(w: &W, tier: Tier, plan: BatchPlan) -> i32 {
     cov.insert("seeds".into(), json!(format!("run i uses mix(VERIF_SEED={seed}, i), i in 0..{}", r.runs)));
     cov.insert("event_log_digest".into(), json!(format!("{:016x}", r.log_digest)));
     cov.insert("simulation".into(), acct_pretty(&r.acct));
+    cov.insert("determinism_selftest".into(), det);
     cov.insert("real_vs_stub".into(), json!(REAL_STUB));
     cov.insert("known_findings_seen".into(), json!(known_hits));
     if let Some(o) = r.extra.as_object() {
